@@ -4,7 +4,7 @@ cd "$(dirname "$0")/.."
 rc=0
 for d in seeded/*/; do
   id=$(basename "$d"); prop=${id%%-*}
-  if ! git -C /repo apply "$d/patch.diff" 2>/dev/null; then echo "$id: patch does not apply (tree moved on)"; rc=1; continue; fi
+  if ! git -C /repo apply "$PWD/$d/patch.diff" 2>/dev/null; then echo "$id: patch does not apply (tree moved on)"; rc=1; continue; fi
   out=$(VERIF_SCRATCH_OUT=1 ./check "$prop" 2>&1); r=$?
   git -C /repo checkout -- .
   v=$(echo "$out" | grep -m1 "violation:" | cut -c1-170)
